@@ -6,7 +6,7 @@ Not decided: string contents at run time."""
 import re
 
 from ..facts import AnalysisBroken
-from ..model import sx, walk, is_var, is_field, const_of, vars_in, root_var, same, on_path
+from ..model import sx, walk, is_var, is_field, const_of, vars_in, root_var, same, on_path, rel
 from .. import rules, core, holds
 from .c04 import slot_impls
 from ..report import Remap
@@ -43,49 +43,63 @@ def slices(P, R):
     for f in reply_closure(P).values():
         textp = [p['name'] for p in f.param_info if p['t'].startswith('const char')]
         for s in f.calls():
-            for j, a in enumerate(s.ev['args']):
-                if not (a.get('k') == 'bin' and a['op'] == '+' and is_var(a['l']) and a['l']['name'] in textp and const_of(a['r']) is not None):
-                    continue
-                k = const_of(a['r'])
-                v = a['l']['name']
-                gs = f.guards(s.bid)
-                lit = None
-                for g in gs:
-                    l, op, rr = g
-                    if isinstance(l, dict) and l.get('k') == 'callref' and l.get('callee') == 'strncmp' and op == '==' and const_of(rr) == 0:
-                        aa = l['args']
-                        if is_var(aa[0], v) and aa[1].get('k') == 'str':
-                            lit = (aa[1]['v'], const_of(aa[2]))
-                bytes_fixed = set()
-                for g in gs:
-                    l, op, rr = g
-                    if isinstance(l, dict) and l.get('k') == 'idx' and is_var(l['base'], v) and const_of(l['index']) is not None and op == '==' and const_of(rr) is not None:
-                        bytes_fixed.add((const_of(l['index']), const_of(rr)))
-                n += 1
-                callee = s.ev.get('callee')
-                ts = P.callees(s, False)
-                if lit is not None:
-                    okn = lit[1] == len(lit[0]) == k
-                    R.ob('C05.TAB.1', okn, s, 'text slice %s follows a %d-byte prefix test against %r with n=%s' % (sx(a), len(lit[0]), lit[0], lit[1]), key='slice:%s' % lit[0].strip())
-                    want = None
-                    if lit[0].startswith('NO'):
-                        want = 'reject'
-                        ok = bool(ts) and ts[0].key in V
-                    elif lit[0].startswith('AGAIN') or lit[0].startswith('MORE'):
-                        want = 'challenge'
-                        ok = callee == 'iauth_challenge'
+            for j, a0 in enumerate(s.ev['args']):
+                # `text + k`, or a choice between such slices (`text[2] == ' ' ? text + 3 : text + 2`): each alternative is
+                # judged under the branch condition that selects it
+                alts = []
+
+                def collect(a, extra):
+                    if isinstance(a, dict) and a.get('k') == 'cond':
+                        rt, rf = rel(a.get('c'), True), rel(a.get('c'), False)
+                        collect(a.get('t'), extra + ([rt] if rt else []))
+                        collect(a.get('f'), extra + ([rf] if rf else []))
+                    elif isinstance(a, dict) and a.get('k') == 'bin' and a['op'] == '+' and is_var(a['l']) and a['l']['name'] in textp and const_of(a['r']) is not None:
+                        alts.append((a, extra))
+                collect(a0, [])
+                for a, extra in alts:
+                    k = const_of(a['r'])
+                    v = a['l']['name']
+                    gs = list(f.guards(s.bid)) + extra
+                    lit = None
+                    for g in gs:
+                        l, op, rr = g
+                        if isinstance(l, dict) and l.get('k') == 'callref' and l.get('callee') == 'strncmp' and op == '==' and const_of(rr) == 0:
+                            aa = l['args']
+                            if is_var(aa[0], v) and aa[1].get('k') == 'str':
+                                lit = (aa[1]['v'], const_of(aa[2]))
+                    bytes_fixed = set()
+                    for g in gs:
+                        l, op, rr = g
+                        if isinstance(l, dict) and l.get('k') == 'idx' and is_var(l['base'], v) and const_of(l['index']) is not None and op == '==' and const_of(rr) is not None:
+                            bytes_fixed.add((const_of(l['index']), const_of(rr)))
+                    n += 1
+                    callee = s.ev.get('callee')
+                    ts = P.callees(s, False)
+
+                    def emitter_ok(word):
+                        if word.startswith('NO'):
+                            return bool(ts) and ts[0].key in V, 'reject'
+                        if word.startswith('AGAIN') or word.startswith('MORE'):
+                            return callee == 'iauth_challenge', 'challenge'
+                        if word.startswith('OK'):
+                            wr_keys = set(account_writers(P, Remap(R, {})))
+                            return (bool(holds.FieldWrites(P).fields(ts[0]) & {'account'} or ts[0].key in wr_keys) if ts else False), 'the account setter'
+                        return False, 'a known reply kind'
+                    if lit is not None:
+                        okn = lit[1] == len(lit[0]) == k
+                        R.ob('C05.TAB.1', okn, s, 'text slice %s follows a %d-byte prefix test against %r with n=%s' % (sx(a), len(lit[0]), lit[0], lit[1]), key='slice:%s' % lit[0].strip())
+                        ok, want = emitter_ok(lit[0])
+                        R.ob('C05.TAB.1', ok, s, 'reply kind %r is relayed by %s (expected: %s)' % (lit[0], callee, want), key='emitter:%s' % lit[0].strip())
                     else:
-                        ok, want = False, 'a known reply kind'
-                    R.ob('C05.TAB.1', ok, s, 'reply kind %r is relayed by %s (expected: %s)' % (lit[0], callee, want), key='emitter:%s' % lit[0].strip())
-                else:
-                    idxs = {i for i, c in bytes_fixed}
-                    ok = idxs >= set(range(k))
-                    R.ob('C05.TAB.1', ok, s, 'text slice %s follows byte tests fixing indices 0..%d (found %s)' % (sx(a), k - 1, sorted(bytes_fixed)), key='slice:bytes:%s' % callee)
-                    if ok:
-                        word = ''.join(chr(c) for i, c in sorted(bytes_fixed) if i < k)
-                        wr_keys = set(account_writers(P, Remap(R, {})))
-                        R.ob('C05.TAB.1', (word == 'OK ' and bool(holds.FieldWrites(P).fields(ts[0]) & {'account'} or ts[0].key in wr_keys)) if ts else False, s,
-                             'the slice after %r goes to the account setter (callee %s)' % (word, callee), key='emitter:OK')
+                        # the bytes in front of the slice are all known, and none of them is the terminator
+                        fixed = dict(bytes_fixed)
+                        ok = set(fixed) >= set(range(k)) and all(fixed[i] != 0 for i in range(k))
+                        R.ob('C05.TAB.1', ok, s, 'text slice %s follows byte tests fixing indices 0..%d (found %s)' % (sx(a), k - 1, sorted(bytes_fixed)), key='slice:bytes:%s:%d' % (callee, k))
+                        if ok:
+                            word = ''.join(chr(fixed[i]) for i in range(k))
+                            oke, want = emitter_ok(word)
+                            R.ob('C05.TAB.1', oke and word.strip() in ('OK', 'NO', 'AGAIN', 'MORE'), s,
+                                 'the slice after %r goes to %s (callee %s)' % (word, want, callee), key='emitter:%s' % word.strip() if word.strip() != 'OK' else 'emitter:OK')
     R.floor('C05.TAB.1', 7, 'text slices of replies')
 
 
